@@ -347,3 +347,576 @@ Ltac cntsimp :=
 
 Ltac acbn := cbn [a_hs a_snd a_lst a_efd a_pc a_q a_incb] in *.
 
+
+(* ---------------------------------------------------------------------- *)
+(* Every abstract step preserves every clause                               *)
+(* ---------------------------------------------------------------------- *)
+Lemma pres_efd a a' : AInv a -> astep a a' -> 0 <= a_efd a'.
+Proof.
+  intros I St. pose proof (i_efd _ I). destruct St; acbn; try lia.
+  destruct (a_efd a <? efd_max); lia.
+Qed.
+
+Lemma pres_busy a a' : AInv a -> astep a a' -> forall h, busy (a_hs a' h) = cnt (in_cs h) (a_snd a').
+Proof.
+  intros I St k. pose proof (i_busy _ I k) as Hb.
+  destruct St; acbn; try exact Hb; cntsimp; unfold hupd; eqb_cases; cbn; unfold b2z; try lia.
+  all: try (destruct (pending (a_hs a h)); cbn; eqb_cases; lia).
+Qed.
+
+Lemma in_remove_h k c l : In k (remove_h c l) <-> In k l /\ k <> c.
+Proof.
+  unfold remove_h. rewrite filter_In. destruct (Nat.eqb_spec k c); cbn; intuition congruence.
+Qed.
+
+Ltac hsimp := cbn [hst pending busy unl published seen sends_begun cb_count
+                   publish add_busy set_pending set_unl run_cb begin_close is_open] in *.
+Ltac hupd_cases := unfold aopn in *; acbn; unfold hupd in *; cbn beta in *; eqb_cases; hsimp.
+
+Lemma scan_head_open a h r : AInv a -> a_pc a = LScan -> a_q a = h :: r -> hst (a_hs a h) = Open.
+Proof.
+  intros I Hpc Hq. destruct (i_ql _ I h) as [Ho|[Hs|Hs]]; auto.
+  - right. rewrite Hq. left; auto.
+  - congruence.
+  - congruence.
+Qed.
+
+Lemma pres_n2 a a' : AInv a -> astep a a' -> forall h, ~ aopn a' h -> pending (a_hs a' h) = true.
+Proof.
+  intros I St k. pose proof (i_n2 _ I k) as Hb.
+  destruct St; acbn; try exact Hb; hupd_cases; auto.
+  - intros Hn. exfalso. apply Hn. eapply scan_head_open; eauto.
+  - intros Hn. exfalso. apply Hn. eapply scan_head_open; eauto.
+Qed.
+
+Lemma pres_olink a a' : AInv a -> astep a a' -> forall h, aopn a' h -> In h (a_lst a') \/ In h (a_q a').
+Proof.
+  intros I St k. pose proof (i_olink _ I k) as Hb.
+  destruct St; acbn; try exact Hb; hupd_cases; auto.
+  - intros Ho. right. destruct (Hb Ho) as [Hl|Hq]; auto.
+    rewrite (i_q0 _ I) in Hq by (unfold aoutside; rewrite H; reflexivity). destruct Hq.
+  - intros _. left. apply in_or_app. right. left. reflexivity.
+  - intros Ho. destruct (Hb Ho) as [Hl|Hq]; [left; apply in_or_app; auto|].
+    rewrite H0 in Hq. destruct Hq; [congruence|auto].
+  - intros _. left. apply in_or_app. right. left. reflexivity.
+  - intros Ho. destruct (Hb Ho) as [Hl|Hq]; [left; apply in_or_app; auto|].
+    rewrite H0 in Hq. destruct Hq; [congruence|auto].
+  - discriminate.
+  - intros Ho. exfalso. apply (i_spin _ I c); auto.
+  - intros Ho. rewrite !in_remove_h. destruct (Hb Ho); auto.
+Qed.
+
+Lemma pres_q0 a a' : AInv a -> astep a a' -> aoutside a' = true -> a_q a' = [].
+Proof.
+  intros I St. pose proof (i_q0 _ I) as Hb.
+  destruct St; acbn; try exact Hb; unfold aoutside in *; acbn.
+  - destruct H; try (intros; apply Hb; reflexivity); try discriminate; auto.
+    destruct H as [[Hq _]|[_ ->]]; [auto|discriminate].
+  - destruct H0 as [[Hq _]|[_ ->]]; [auto|discriminate].
+  - discriminate.
+  - destruct H2 as [[Hq _]|[_ ->]]; [auto|discriminate].
+  - discriminate.
+  - destruct H as [[Hp ->]|[Hp ->]]; [|discriminate]. intros _. apply Hb. rewrite Hp. reflexivity.
+  - destruct (a_incb a) eqn:Ei; [discriminate|]. intros _.
+    rewrite Hb; [reflexivity|]. destruct H as [->| ->]; reflexivity.
+Qed.
+
+Lemma pres_ql a a' : AInv a -> astep a a' ->
+  forall h, In h (a_lst a') \/ In h (a_q a') -> aopn a' h \/ aspin h a'.
+Proof.
+  intros I St k. pose proof (i_ql _ I k) as Hb.
+  destruct St; acbn; try exact Hb; unfold aspin in *; hupd_cases; auto.
+  - intros Hin; destruct (Hb Hin) as [Ho|[Hs|Hs]]; auto; inversion H; subst; try congruence;
+      try (right; right; congruence).
+  - intros [[]|Hin]. destruct (Hb (or_introl Hin)) as [Ho|[Hs|Hs]]; auto; congruence.
+  - intros _. left. eapply scan_head_open; eauto.
+  - intros Hin. assert (Hin' : In k (a_lst a) \/ In k (a_q a)).
+    { rewrite H0. destruct Hin as [Hin|Hin]; [apply in_app_or in Hin; destruct Hin as [|[|[]]]; auto; congruence|right; right; auto]. }
+    destruct (Hb Hin') as [Ho|[Hs|Hs]]; auto; congruence.
+  - intros _. left. eapply scan_head_open; eauto.
+  - intros Hin. assert (Hin' : In k (a_lst a) \/ In k (a_q a)).
+    { rewrite H0. destruct Hin as [Hin|Hin]; [apply in_app_or in Hin; destruct Hin as [|[|[]]]; auto; congruence|right; right; auto]. }
+    destruct (Hb Hin') as [Ho|[Hs|Hs]]; auto; congruence.
+  - intros Hin; destruct (Hb Hin) as [Ho|[Hs|Hs]]; auto; congruence.
+  - intros Hin; destruct (Hb Hin) as [Ho|[Hs|Hs]]; auto; congruence.
+  - intros Hin; destruct (Hb Hin) as [Ho|[Hs|Hs]]; auto; destruct H as [[Hp _]|[Hp _]]; congruence.
+  - rewrite !in_remove_h. intros [[_ Hx]|[_ Hx]]; congruence.
+  - rewrite !in_remove_h. intros Hin.
+    assert (Hin' : In k (a_lst a) \/ In k (a_q a)) by tauto.
+    destruct (Hb Hin') as [Ho|[Hs|Hs]]; auto; destruct H; congruence.
+Qed.
+
+Lemma rest_not_call p k : rest_pc p -> p <> LCall k.
+Proof. intros [->|[nb ->]]; discriminate. Qed.
+Lemma after_scan_not_call q p k : after_scan q p -> p <> LCall k.
+Proof. intros [[_ H]|[_ ->]]; [apply rest_not_call; auto|discriminate]. Qed.
+Lemma pc_move_not_call q p p' k : pc_move q p p' -> p' <> LCall k.
+Proof.
+  destruct 1; try discriminate; eauto using rest_not_call, after_scan_not_call.
+Qed.
+Lemma rest_not_spin p : rest_pc p -> forall k, p <> LSpin0 k /\ p <> LSpin k.
+Proof. intros [->|[nb ->]] k; split; discriminate. Qed.
+Lemma after_scan_not_spin q p : after_scan q p -> forall k, p <> LSpin0 k /\ p <> LSpin k.
+Proof. intros [[_ H]|[_ ->]] k; [apply rest_not_spin; auto|split; discriminate]. Qed.
+
+Lemma pres_call a a' : AInv a -> astep a a' -> forall h, a_pc a' = LCall h -> aopn a' h.
+Proof.
+  intros I St k. pose proof (i_call _ I k) as Hb.
+  destruct St; acbn; try exact Hb; hupd_cases; auto; try discriminate.
+  - intros Hp. exfalso. eapply pc_move_not_call; eauto.
+  - intros Hp. exfalso. eapply after_scan_not_call; eauto.
+  - intros _. eapply scan_head_open; eauto.
+  - congruence.
+  - intros Hp. exfalso. eapply after_scan_not_call; eauto.
+  - intros Hp. exfalso. eapply after_scan_not_call; eauto.
+  - destruct (a_incb a); discriminate.
+  - destruct (a_incb a); discriminate.
+Qed.
+
+Ltac nospin k := exfalso; match goal with
+  | Hr : rest_pc _ |- _ => destruct (rest_not_spin _ Hr k); tauto
+  | Hr : after_scan _ _ |- _ => destruct (after_scan_not_spin _ _ Hr k); tauto end.
+
+Lemma pres_spin a a' : AInv a -> astep a a' -> forall h, aspin h a' -> ~ aopn a' h.
+Proof.
+  intros I St k. pose proof (i_spin _ I k) as Hb.
+  destruct St; acbn; try exact Hb; unfold aspin in *; hupd_cases; auto; try discriminate.
+  - intros Hp. inversion H; subst; try (destruct Hp; discriminate);
+      try (apply Hb; destruct Hp as [Hp|Hp]; inversion Hp; subst; auto; fail); nospin k.
+  - intros Hp. nospin k.
+  - intros [|]; discriminate.
+  - intros [|]; discriminate.
+  - intros Hp. nospin h.
+  - intros Hp. nospin k.
+  - intros [|]; discriminate.
+  - intros [|]; discriminate.
+  - intros [Hp|Hp]; inversion Hp; subst; congruence.
+  - destruct (a_incb a); intros [|]; discriminate.
+Qed.
+
+Lemma pres_seen a a' : AInv a -> astep a a' -> forall h, seen (a_hs a' h) <= published (a_hs a' h).
+Proof.
+  intros I St k. pose proof (i_seen _ I k) as Hb.
+  destruct St; acbn; try exact Hb; hupd_cases; auto; try lia.
+Qed.
+
+Lemma pres_unl a a' : AInv a -> astep a a' ->
+  forall h, unl (a_hs a' h) = true -> ~ aopn a' h /\ cnt (at_write_h h) (a_snd a') = 0.
+Proof.
+  intros I St k. pose proof (i_unl _ I k) as Hb.
+  destruct St; acbn; try exact Hb; cntsimp; hupd_cases; auto.
+  all: try (intros Hu; destruct (Hb Hu) as [Hno Hc]; split; [auto| unfold b2z in *; try lia]; fail).
+  - intros Hu; destruct (Hb Hu) as [Hno Hc]; split; auto.
+    rewrite (i_n2 _ I h Hno). unfold b2z. lia.
+  - intros Hu; destruct (Hb Hu) as [Hno Hc]; split; auto.
+    destruct (pending (a_hs a h)); unfold b2z; [lia|].
+    destruct (Nat.eqb_spec h k); [congruence|lia].
+  - intros Hu; destruct (Hb Hu) as [Hno Hc]. exfalso.
+    pose proof (cnt_zero_all _ _ _ _ Hc H) as Hz. cbn beta in Hz. rewrite H0, Nat.eqb_refl in Hz. discriminate.
+  - intros Hu; destruct (Hb Hu) as [Hno Hc]; split; [discriminate|auto].
+  - intros _. split.
+    + apply (i_spin _ I c). exact H.
+    + pose proof (i_busy _ I c) as Hbz. rewrite H0 in Hbz.
+      pose proof (cnt_le (at_write_h c) (in_cs c) (a_snd a)) as Hle.
+      pose proof (cnt_nonneg (at_write_h c) (a_snd a)) as Hnn.
+      unfold at_write_h, in_cs in *.
+      assert (Himp : forall x : sender,
+        match s_pc x with SWrite k => (k =? c)%nat | _ => false end = true ->
+        match s_pc x with SBusy k | SWrite k | SDec k => (k =? c)%nat | _ => false end = true).
+      { intros y. destruct (s_pc y); intros Hx; auto; discriminate. }
+      specialize (Hle Himp). lia.
+Qed.
+
+Lemma pres_wake a a' : AInv a -> astep a a' ->
+  forall h, aopn a' h -> pending (a_hs a' h) = true ->
+  0 < a_efd a' \/ 0 < cnt at_write (a_snd a') \/ In h (a_q a').
+Proof.
+  intros I St k. pose proof (i_wake _ I k) as Hb. pose proof (i_efd _ I) as He.
+  pose proof (cnt_nonneg at_write (a_snd a)) as Hnn.
+  destruct St; acbn; try exact Hb; cntsimp; hupd_cases; auto.
+  all: try (intros Ho Hp; destruct (Hb Ho Hp) as [?|[?|?]]; unfold b2z in *;
+            [left; lia | right; left; lia | right; right; assumption]; fail).
+  - intros Ho _. destruct (pending (a_hs a h)) eqn:Ep.
+    + destruct (Hb Ho eq_refl) as [?|[?|?]]; unfold b2z in *; [left; lia | right; left; lia | right; right; assumption].
+    + right; left. unfold b2z. lia.
+  - intros Ho Hp. destruct (pending (a_hs a h)) eqn:Ep.
+    + destruct (Hb Ho Hp) as [?|[?|?]]; unfold b2z in *; [left; lia | right; left; lia | right; right; assumption].
+    + right; left. unfold b2z. lia.
+  - intros _ _. left. unfold efd_max. destruct (Z.ltb_spec (a_efd a) 18446744073709551614); lia.
+  - intros Ho Hp. right; right.
+    destruct (i_olink _ I k Ho) as [Hl|Hq]; auto.
+    rewrite (i_q0 _ I) in Hq by (unfold aoutside; rewrite H; reflexivity). destruct Hq.
+  - discriminate.
+  - intros Ho Hp. destruct (Hb Ho Hp) as [?|[?|Hq]]; auto.
+    rewrite H0 in Hq. destruct Hq; [congruence|auto].
+  - discriminate.
+  - intros Ho Hp. destruct (Hb Ho Hp) as [?|[?|Hq]]; auto.
+    rewrite H0 in Hq. destruct Hq; [congruence|auto].
+  - discriminate.
+  - intros Ho. exfalso. apply (i_spin _ I c); auto.
+  - intros Ho Hp. destruct (Hb Ho Hp) as [?|[?|Hq]]; auto.
+    right; right. apply in_remove_h. auto.
+Qed.
+
+Lemma pres_owed a a' : AInv a -> astep a a' ->
+  forall h, aopn a' h -> seen (a_hs a' h) < published (a_hs a' h) ->
+  pending (a_hs a' h) = true \/ 0 < cnt (pre_set h) (a_snd a') \/ a_pc a' = LCall h.
+Proof.
+  intros I St k. pose proof (i_owed _ I k) as Hb.
+  pose proof (cnt_nonneg (pre_set k) (a_snd a)) as Hnn.
+  destruct St; acbn; try exact Hb; cntsimp; hupd_cases; auto.
+  all: try (intros Ho Hp; destruct (Hb Ho Hp) as [?|[?|?]]; unfold b2z in *;
+            [left; auto | right; left; lia | right; right; assumption]; fail).
+  all: try (intros Ho Hp; destruct (Hb Ho Hp) as [?|[?|Hc]]; unfold b2z in *;
+            [left; auto | right; left; lia | exfalso; try congruence;
+             try (match goal with Hm : pc_move _ _ _ |- _ => rewrite Hc in Hm; inversion Hm end);
+             try (match goal with Hm : _ \/ _ |- _ => destruct Hm as [[? ?]|[? ?]]; congruence end);
+             try (match goal with Hm : _ \/ _ |- _ => destruct Hm; congruence end)]; fail).
+  - intros _ _. right; left. unfold b2z. lia.
+  - intros Ho Hp. destruct (Hb Ho Hp) as [?|[?|Hc]]; auto.
+    right; left. destruct (pending (a_hs a h)); unfold b2z; lia.
+  - intros Ho Hp. destruct (Hb Ho Hp) as [?|[?|Hc]]; auto; congruence.
+  - intros _ Hp. lia.
+Qed.
+
+Lemma call_term_nonneg p k : 0 <= call_term p k.
+Proof. destruct p; cbn; unfold b2z; try lia. destruct (Nat.eqb h k); lia. Qed.
+Lemma rest_call0 p k : rest_pc p -> call_term p k = 0.
+Proof. intros [->|[nb ->]]; reflexivity. Qed.
+Lemma after_scan_call0 q p k : after_scan q p -> call_term p k = 0.
+Proof. intros [[_ H]|[_ ->]]; [apply rest_call0; auto|reflexivity]. Qed.
+Lemma pc_move_call0 q p p' k : pc_move q p p' -> call_term p' k = 0.
+Proof. destruct 1; try reflexivity; eauto using rest_call0, after_scan_call0. Qed.
+
+Lemma pres_paid a a' : AInv a -> astep a a' ->
+  forall h, cb_count (a_hs a' h) + b2z (is_open (a_hs a' h) && pending (a_hs a' h))
+            + call_term (a_pc a' ) h + cnt (pre_set h) (a_snd a') <= sends_begun (a_hs a' h).
+Proof.
+  intros I St k. pose proof (i_paid _ I k) as Hb.
+  pose proof (cnt_nonneg (pre_set k) (a_snd a)) as Hnn.
+  destruct St; acbn; try exact Hb; cntsimp; unfold is_open in *; hupd_cases; auto.
+  all: try (unfold b2z in *; lia).
+  all: try (match goal with Hm : pc_move _ (a_pc ?a) _ |- context[call_term _ ?k] =>
+                 rewrite (pc_move_call0 _ _ _ k Hm);
+                 pose proof (call_term_nonneg (a_pc a) k); lia end).
+  all: try (match goal with Hm : after_scan _ _ |- context[call_term _ ?k] =>
+                 rewrite (after_scan_call0 _ _ k Hm) end).
+  all: try (match goal with Hm : a_pc _ = _, Hb : _ <= _ |- _ => rewrite Hm in Hb end).
+  all: unfold call_term in *; try rewrite Nat.eqb_refl.
+  all: try (match goal with |- context[pending (a_hs ?a ?h)] =>
+              destruct (hst (a_hs a h)); destruct (pending (a_hs a h)); cbn [andb] in *;
+              unfold b2z in *; eqb_cases; lia end).
+  - pose proof (scan_head_open _ _ _ I H H0) as Ho. rewrite Ho, H1 in Hb. rewrite Ho. cbn [andb] in *.
+    unfold b2z in *. lia.
+  - rewrite H1 in Hb. destruct (hst (a_hs a h)); cbn [andb] in *; unfold b2z in *; lia.
+  - destruct H as [[Hp _]|[Hp _]]; rewrite Hp in Hb; cbn [andb];
+      destruct (hst (a_hs a c)); destruct (pending (a_hs a c)); cbn [andb] in *; unfold b2z in *; lia.
+  - destruct H as [[Hp _]|[Hp _]]; rewrite Hp in Hb; exact Hb.
+  - destruct H as [Hp|Hp]; rewrite Hp in Hb; destruct (a_incb a); exact Hb.
+  - destruct H as [Hp|Hp]; rewrite Hp in Hb; destruct (a_incb a); exact Hb.
+Qed.
+
+Lemma astep_inv a a' : AInv a -> astep a a' -> AInv a'.
+Proof.
+  intros I St. constructor.
+  - eapply pres_efd; eauto.
+  - eapply pres_busy; eauto.
+  - eapply pres_n2; eauto.
+  - eapply pres_olink; eauto.
+  - eapply pres_q0; eauto.
+  - eapply pres_ql; eauto.
+  - eapply pres_call; eauto.
+  - eapply pres_spin; eauto.
+  - eapply pres_unl; eauto.
+  - eapply pres_seen; eauto.
+  - eapply pres_wake; eauto.
+  - eapply pres_owed; eauto.
+  - eapply pres_paid; eauto.
+Qed.
+
+(* ---------------------------------------------------------------------- *)
+(* Initial states, reachability                                             *)
+(* ---------------------------------------------------------------------- *)
+Lemma cnt_idle P scripts : (forall sc, P (mkS SIdle sc) = false) ->
+  cnt P (map (mkS SIdle) scripts) = 0.
+Proof. intros H. induction scripts as [|x r IH]; simpl; [reflexivity|]. rewrite H, IH. reflexivity. Qed.
+
+Lemma hinit_spec n k :
+  (k < n)%nat /\ hinit n k = fresh_handle \/ (n <= k)%nat /\ hinit n k = no_handle.
+Proof.
+  unfold hinit. destruct (Nat.ltb_spec k n); [left|right]; auto.
+Qed.
+
+Lemma init_inv n e0 ls beh scripts : 0 <= e0 -> AInv (view (init n e0 ls beh scripts)).
+Proof.
+  intros He. unfold init, view. cbn [hs snd lp lst efd l_pc l_queue l_incb].
+  constructor; cbn [a_hs a_snd a_lst a_efd a_pc a_q a_incb]; unfold aopn, aspin;
+    cbn [a_hs a_snd a_lst a_efd a_pc a_q a_incb]; auto.
+  - intros h. rewrite cnt_idle by reflexivity.
+    destruct (hinit_spec (S n) h) as [[_ ->]|[_ ->]]; reflexivity.
+  - intros h. destruct (hinit_spec (S n) h) as [[_ ->]|[_ ->]]; cbn; [congruence|auto].
+  - intros h. destruct (hinit_spec (S n) h) as [[Hl ->]|[_ ->]]; cbn; [|discriminate].
+    intros _. left. destruct (Nat.eq_dec h n); [left; auto|right; apply in_seq; lia].
+  - intros h [[->|Hin]|[]].
+    + left. destruct (hinit_spec (S h) h) as [[_ ->]|[Hl _]]; [reflexivity|lia].
+    + left. apply in_seq in Hin. destruct (hinit_spec (S n) h) as [[_ ->]|[Hl _]]; [reflexivity|lia].
+  - discriminate.
+  - intros h [|]; discriminate.
+  - intros h. rewrite cnt_idle by reflexivity.
+    destruct (hinit_spec (S n) h) as [[_ ->]|[_ ->]]; cbn; [discriminate|].
+    intros _. split; [discriminate|reflexivity].
+  - intros h. destruct (hinit_spec (S n) h) as [[_ ->]|[_ ->]]; cbn; lia.
+  - intros h. destruct (hinit_spec (S n) h) as [[_ ->]|[_ ->]]; cbn; [discriminate|discriminate].
+  - intros h. destruct (hinit_spec (S n) h) as [[_ ->]|[_ ->]]; cbn; lia.
+  - intros h. rewrite cnt_idle by reflexivity.
+    destruct (hinit_spec (S n) h) as [[_ ->]|[_ ->]]; cbn; lia.
+Qed.
+
+Definition Inv (s : state) : Prop := AInv (view s).
+
+Inductive reachable (s0 : state) : state -> Prop :=
+| reach_init : reachable s0 s0
+| reach_step s t s' : reachable s0 s -> step s t = Some s' -> reachable s0 s'.
+
+Lemma run_reachable s0 : forall sched s s', reachable s0 s -> run s sched = Some s' -> reachable s0 s'.
+Proof.
+  induction sched as [|t r IH]; intros s s' Hr Hrun; simpl in Hrun.
+  - inversion Hrun; subst; auto.
+  - unfold run in Hrun. simpl in Hrun. destruct (step_gen true s t) eqn:E; [|discriminate].
+    eapply IH; [|exact Hrun]. eapply reach_step; eauto.
+Qed.
+
+Lemma reachable_inv n e0 ls beh scripts s :
+  0 <= e0 -> reachable (init n e0 ls beh scripts) s -> Inv s.
+Proof.
+  intros He Hr. induction Hr.
+  - apply init_inv; auto.
+  - eapply astep_inv; eauto. apply step_astep with (t := t); auto.
+Qed.
+
+(* ---------------------------------------------------------------------- *)
+(* The theorems                                                             *)
+(* ---------------------------------------------------------------------- *)
+(* the loop thread is outside the scan of uv__async_io *)
+Definition outside (l : loop) : bool :=
+  match l_pc l with
+  | LTop | LPoll _ | LDrain | LDone => true
+  | LSpin0 _ | LSpin _ => negb (l_incb l)
+  | _ => false
+  end.
+
+(* a sender sits between the exchange that read 0 and the eventfd write *)
+Definition writer_in_flight (s : state) : Prop :=
+  exists i x h, nth_error (snd s) i = Some x /\ s_pc x = SWrite h.
+(* the loop is inside the scan of uv__async_io and has not yet passed h *)
+Definition scan_not_passed (s : state) (h : nat) : Prop :=
+  outside (lp s) = false /\ In h (l_queue (lp s)).
+(* a sender is between busy++ and busy-- on h *)
+Definition sender_in_cs (s : state) (h : nat) : Prop :=
+  exists i x, nth_error (snd s) i = Some x /\ in_cs h x = true.
+
+Lemma outside_view s : aoutside (view s) = outside (lp s).
+Proof. reflexivity. Qed.
+
+Lemma wake_invariant s : Inv s ->
+  forall h, hst (hs s h) = Open -> pending (hs s h) = true ->
+  0 < efd s \/ writer_in_flight s \/ scan_not_passed s h.
+Proof.
+  intros I h Ho Hp. destruct (i_wake _ I h Ho Hp) as [He|[Hw|Hq]]; auto.
+  - right; left. destruct (cnt_pos_ex _ _ Hw) as (i & x & Hn & Hx).
+    unfold at_write in Hx. destruct (s_pc x) eqn:E; try discriminate.
+    exists i, x, h0. auto.
+  - right; right. split; auto. cbn in Hq.
+    destruct (outside (lp s)) eqn:Eo; auto.
+    pose proof (i_q0 _ I) as H0. rewrite outside_view in H0. cbn in H0. rewrite (H0 Eo) in Hq. destruct Hq.
+Qed.
+
+Lemma quiescent_spec s : quiescent s = true ->
+  (forall i x, nth_error (snd s) i = Some x -> s_pc x = SIdle) /\
+  l_pc (lp s) = LPoll false /\ efd s <= 0.
+Proof.
+  unfold quiescent. rewrite andb_true_iff. intros [Hs Hl]. split.
+  - intros i x Hn. rewrite forallb_forall in Hs. specialize (Hs x (nth_error_In _ _ Hn)).
+    unfold sender_idle in Hs. destruct (s_pc x); try discriminate; reflexivity.
+  - destruct (l_pc (lp s)); try discriminate. destruct nb; try discriminate. split; [reflexivity|lia].
+Qed.
+
+Lemma no_lost_wakeup s : Inv s -> quiescent s = true ->
+  forall h, hst (hs s h) = Open -> seen (hs s h) = published (hs s h).
+Proof.
+  intros I Hq h Ho. destruct (quiescent_spec s Hq) as (Hs & Hpc & He).
+  pose proof (i_seen _ I h) as Hle. cbn in Hle.
+  destruct (Z.eq_dec (seen (hs s h)) (published (hs s h))) as [|Hne]; auto. exfalso.
+  assert (Hlt : seen (hs s h) < published (hs s h)) by lia.
+  destruct (i_owed _ I h Ho Hlt) as [Hp|[Hc|Hc]].
+  - destruct (wake_invariant s I h Ho Hp) as [H1|[H2|H3]].
+    + lia.
+    + destruct H2 as (i & x & k & Hn & Hx). rewrite (Hs i x Hn) in Hx. discriminate.
+    + destruct H3 as [Hout _]. unfold outside in Hout. rewrite Hpc in Hout. discriminate.
+  - destruct (cnt_pos_ex _ _ Hc) as (i & x & Hn & Hx). cbn in Hn.
+    unfold pre_set in Hx. rewrite (Hs i x Hn) in Hx. discriminate.
+  - cbn in Hc. rewrite Hpc in Hc. discriminate.
+Qed.
+
+(* the loop is never left sleeping while a callback is owed: if it is at epoll_pwait
+   and some open handle has pending = 1, the eventfd is readable or about to be written *)
+Lemma blocked_loop_is_woken s : Inv s -> (exists nb, l_pc (lp s) = LPoll nb) ->
+  forall h, hst (hs s h) = Open -> pending (hs s h) = true ->
+  0 < efd s \/ writer_in_flight s.
+Proof.
+  intros I [nb Hpc] h Ho Hp. destruct (wake_invariant s I h Ho Hp) as [H1|[H2|H3]]; auto.
+  destruct H3 as [Hout _]. unfold outside in Hout. rewrite Hpc in Hout. discriminate.
+Qed.
+
+Lemma cb_only_after_send s : Inv s -> forall h, cb_count (hs s h) <= sends_begun (hs s h).
+Proof.
+  intros I h. pose proof (i_paid _ I h) as Hp. cbn in Hp.
+  pose proof (cnt_nonneg (pre_set h) (snd s)).
+  pose proof (call_term_nonneg (l_pc (lp s)) h).
+  unfold b2z in Hp. destruct (is_open (hs s h) && pending (hs s h)); lia.
+Qed.
+
+(* once uv_close has been called on h: no further callback, and it stays closing *)
+Lemma astep_closing_frozen a a' h : AInv a -> astep a a' -> hst (a_hs a h) = Closing ->
+  hst (a_hs a' h) = Closing /\ cb_count (a_hs a' h) = cb_count (a_hs a h).
+Proof.
+  intros I St Hc. destruct St; acbn; auto; hupd_cases; auto.
+  exfalso. pose proof (i_call _ I _ H) as Ho. unfold aopn in Ho. congruence.
+Qed.
+
+Lemma no_cb_after_close s : Inv s -> forall h, hst (hs s h) = Closing ->
+  forall sched s', run s sched = Some s' ->
+  hst (hs s' h) = Closing /\ cb_count (hs s' h) = cb_count (hs s h).
+Proof.
+  intros I h Hc sched. revert s I Hc. induction sched as [|t r IH]; intros s I Hc s' Hrun.
+  - inversion Hrun; subst. auto.
+  - unfold run in Hrun. simpl in Hrun. destruct (step_gen true s t) eqn:E; [|discriminate].
+    pose proof (step_astep s t s0 E) as St.
+    destruct (astep_closing_frozen _ _ h I St Hc) as [Hc' Hcb].
+    destruct (IH s0 (astep_inv _ _ I St) Hc' s' Hrun) as [H1 H2]. split; auto. cbn in *. congruence.
+Qed.
+
+(* uv__async_close returns only when no sender is between busy++ and busy-- *)
+Lemma close_returns_when_idle s s' h : Inv s -> step s 0 = Some s' ->
+  (l_pc (lp s) = LSpin0 h \/ l_pc (lp s) = LSpin h) ->
+  ~ (l_pc (lp s') = LSpin0 h \/ l_pc (lp s') = LSpin h) ->
+  busy (hs s' h) = 0 /\ unl (hs s' h) = true /\ pending (hs s' h) = true /\
+  (forall i x, nth_error (snd s') i = Some x -> in_cs h x = false).
+Proof.
+  intros I Hst Hpc Hout.
+  assert (Hsp : step s 0 = Some (spin_step s h)).
+  { unfold step, step_gen, loop_step. cbv zeta. destruct Hpc as [-> | ->]; reflexivity. }
+  rewrite Hsp in Hst. injection Hst as <-.
+  destruct (busy (hs s h) =? 0) eqn:Eb.
+  - pose proof (spin_exit_view s h Eb) as Hv.
+    pose proof (f_equal a_hs Hv) as Hhs. pose proof (f_equal a_snd Hv) as Hsn. cbn in Hhs, Hsn.
+    rewrite Hhs, Hsn. unfold hupd. rewrite Nat.eqb_refl. cbn.
+    assert (Hb0 : busy (hs s h) = 0) by lia.
+    assert (Hno : ~ aopn (view s) h) by (apply (i_spin _ I h); exact Hpc).
+    repeat split; auto.
+    + apply (i_n2 _ I h Hno).
+    + intros i x Hn. pose proof (i_busy _ I h) as Hbz. cbn in Hbz. rewrite Hb0 in Hbz.
+      eapply cnt_zero_all; eauto.
+  - exfalso. apply Hout. right.
+    pose proof (f_equal a_pc (spin_stay_view s h Eb)) as Hp. cbn in Hp. exact Hp.
+Qed.
+
+(* after uv__async_close has returned: pending stays 1, nobody is about to write the
+   eventfd on the handle's behalf, and this persists *)
+Lemma closed_handle_silent s : Inv s -> forall h, unl (hs s h) = true ->
+  hst (hs s h) = Closing /\ pending (hs s h) = true /\
+  (forall i x, nth_error (snd s) i = Some x -> s_pc x <> SWrite h).
+Proof.
+  intros I h Hu. destruct (i_unl _ I h Hu) as [Hno Hc].
+  assert (Hcl : hst (hs s h) = Closing).
+  { unfold aopn in Hno. cbn in Hno. destruct (hst (hs s h)); congruence. }
+  repeat split; auto.
+  - apply (i_n2 _ I h Hno).
+  - intros i x Hn Hx. cbn in Hc. pose proof (cnt_zero_all _ _ _ _ Hc Hn) as Hz.
+    unfold at_write_h in Hz. rewrite Hx, Nat.eqb_refl in Hz. discriminate.
+Qed.
+
+Lemma astep_unl_stable a a' h : astep a a' -> unl (a_hs a h) = true -> unl (a_hs a' h) = true.
+Proof. intros St Hu. destruct St; acbn; auto; hupd_cases; auto. Qed.
+
+Lemma unl_stable s h : unl (hs s h) = true ->
+  forall sched s', run s sched = Some s' -> unl (hs s' h) = true.
+Proof.
+  intros Hu sched. revert s Hu. induction sched as [|t r IH]; intros s Hu s' Hrun.
+  - inversion Hrun; subst; auto.
+  - unfold run in Hrun. simpl in Hrun. destruct (step_gen true s t) eqn:E; [|discriminate].
+    apply (IH s0); auto. exact (astep_unl_stable _ _ h (step_astep s t s0 E) Hu).
+Qed.
+
+(* ---------------------------------------------------------------------- *)
+(* Witnesses                                                                *)
+(* ---------------------------------------------------------------------- *)
+Definition nobeh : nat -> list nat := fun _ => [].
+
+(* one handle, one sender sending twice, uv_run(DEFAULT) *)
+Definition w_init : state := init 1 0 [OpRun true] nobeh [[0%nat; 0%nat]].
+Definition w_sched : list nat :=
+  [1; 1; 1; 1; 1; 1;      (* first send: publish, load, busy++, exchange, write, busy-- *)
+   0; 0; 0; 0; 0; 0;      (* loop: uv_run -> poll; poll; (drain | scan wq_async); ...; callback; return *)
+   1; 1; 1; 1; 1; 1;      (* second send, while the loop is between scan and drain *)
+   0]%nat.
+
+Lemma ex_of_check (o : option state) (P : state -> bool) :
+  (match o with Some s => P s | None => false end) = true -> exists s, o = Some s /\ P s = true.
+Proof. destruct o as [s|]; [intros H; exists s; auto|discriminate]. Qed.
+
+Ltac split_bools H :=
+  repeat (apply andb_true_iff in H; let H' := fresh "Hb" in destruct H as [H H']).
+
+(* the variant that scans before it drains loses the second wake-up *)
+Lemma scan_before_drain_loses_wakeup :
+  exists s, run_gen false w_init w_sched = Some s /\ quiescent s = true /\
+            hst (hs s 0%nat) = Open /\ seen (hs s 0%nat) = 1 /\ published (hs s 0%nat) = 2.
+Proof.
+  destruct (ex_of_check (run_gen false w_init w_sched)
+    (fun s => quiescent s && is_open (hs s 0%nat) && (seen (hs s 0%nat) =? 1) && (published (hs s 0%nat) =? 2)))
+    as (s & Hr & Hc); [vm_compute; reflexivity|].
+  exists s. split; [exact Hr|]. rewrite !andb_true_iff in Hc. destruct Hc as [[[H1 H2] H3] H4].
+  unfold is_open in H2. destruct (hst (hs s 0%nat)); [|discriminate]. repeat split; auto; lia.
+Qed.
+
+(* the same schedule on the code as it is: the loop is not blocked *)
+Lemma drain_before_scan_same_schedule :
+  exists s, run w_init w_sched = Some s /\ quiescent s = false /\ 0 < efd s.
+Proof.
+  destruct (ex_of_check (run w_init w_sched) (fun s => negb (quiescent s) && (0 <? efd s)))
+    as (s & Hr & Hc); [vm_compute; reflexivity|].
+  exists s. split; [exact Hr|]. rewrite !andb_true_iff in Hc. destruct Hc as [H1 H2].
+  split; [destruct (quiescent s); auto; discriminate|lia].
+Qed.
+
+(* a reachable quiescent state with delivered callbacks (the hypotheses of
+   no_lost_wakeup are satisfiable non-trivially) *)
+Lemma quiescent_example :
+  exists s, run w_init (w_sched ++ [0; 0; 0; 0; 0; 0]%nat) = Some s /\ quiescent s = true /\
+            hst (hs s 0%nat) = Open /\ seen (hs s 0%nat) = 2 /\ cb_count (hs s 0%nat) = 2.
+Proof.
+  destruct (ex_of_check (run w_init (w_sched ++ [0; 0; 0; 0; 0; 0]%nat))
+    (fun s => quiescent s && is_open (hs s 0%nat) && (seen (hs s 0%nat) =? 2) && (cb_count (hs s 0%nat) =? 2)))
+    as (s & Hr & Hc); [vm_compute; reflexivity|].
+  exists s. split; [exact Hr|]. rewrite !andb_true_iff in Hc. destruct Hc as [[[H1 H2] H3] H4].
+  unfold is_open in H2. destruct (hst (hs s 0%nat)); [|discriminate]. repeat split; auto; lia.
+Qed.
+
+(* A sender that loaded pending = 0 before uv_close stored 1 can be delayed past
+   uv_close and past close_cb; it then still increments and decrements busy in the
+   handle's memory (it does not write the eventfd and causes no callback). *)
+Definition l_init : state := init 1 0 [OpClose 0%nat; OpRun false] nobeh [[0%nat]].
+Definition l_sched : list nat := [1; 1; 0; 0; 0; 0; 1]%nat.
+
+Lemma late_sender_touches_closed_handle :
+  exists s, run l_init l_sched = Some s /\
+            In 0%nat (l_closed (lp s)) /\ unl (hs s 0%nat) = true /\ busy (hs s 0%nat) = 1.
+Proof.
+  destruct (ex_of_check (run l_init l_sched)
+    (fun s => existsb (Nat.eqb 0) (l_closed (lp s)) && unl (hs s 0%nat) && (busy (hs s 0%nat) =? 1)))
+    as (s & Hr & Hc); [vm_compute; reflexivity|].
+  exists s. split; [exact Hr|]. rewrite !andb_true_iff in Hc. destruct Hc as [[H1 H2] H3].
+  apply existsb_exists in H1. destruct H1 as (k & Hin & Hk). apply Nat.eqb_eq in Hk. subst k.
+  repeat split; auto; lia.
+Qed.
